@@ -149,13 +149,8 @@ def load_world():
 
     w.qk.s = NS(dispatcher=s_disp)
 
-    def s_var(gamma, as1, order, nf, L, dim):
-        out = np.empty((2, 2), dtype=object)
-        for idx in np.ndindex(2, 2):
-            out[idx] = SR.var("FSV") * SR.var("Fs%d%d" % idx)
-        return out
-
-    w.qk.sv_expanded = NS(non_singlet_variation=lambda gamma, as1, order, nf, L: SR.var("FSV") * SR.var("Fns"), singlet_variation=s_var)
+    # the expanded scale-variation factors are the real functions (trivial at LO, polynomial in a_s L gamma beyond)
+    w.qk.sv_expanded = R.sym_runner_module("eko.scale_variations.expanded")
 
     class StubKerBase:
         def __init__(self, u, is_log, logx, mode0):
@@ -236,15 +231,21 @@ def case_cont(log, nf0, nff, sv, order=(1, 0)):
         del w.calls.a[:], w.calls.quad[:], w.calls.couplings_kw[:]
         els = w.ops._parts((t, nff), eko)
         final = els[-1]
-        if not isinstance(final, w.items.Evolution):
-            raise EngineError("path does not end with an evolution")
-        w.prt.evolve(eko, final)
         D = NS()
-        D.head = [_head_item(w, e) for e in els[:-1]]
-        D.origin = z3_of(final.origin)
-        D.target = z3_of(final.target)
-        D.nf = final.nf
-        D.cliff = bool(final.cliff)
+        if isinstance(final, w.items.Evolution):
+            w.prt.evolve(eko, final)
+            D.head = [_head_item(w, e) for e in els[:-1]]
+            D.origin = z3_of(final.origin)
+            D.target = z3_of(final.target)
+            D.nf = final.nf
+            D.cliff = bool(final.cliff)
+        else:
+            # the path ends with a matching: nothing is evolved after it, i.e. the part of the operator that depends on the
+            # target scale is the identity (treated like the identity shortcut of Operator.compute)
+            D.head = [_head_item(w, e) for e in els]
+            D.origin = D.target = z3_of(final.scale)
+            D.nf = final.hq - 1 if final.inverse else final.hq
+            D.cliff = False
         D.a_calls = [(z3_of(s), (n, eff)) for s, n, eff in w.calls.a]
         D.order = tuple(order)
         D.skipped = not w.calls.quad
@@ -263,7 +264,9 @@ def case_cont(log, nf0, nff, sv, order=(1, 0)):
                 ker = f(0.75)  # the real quad_ker_ad -> quad_ker_qcd on the probe stubs
                 ker = ker if isinstance(ker, SR) else SR(Q(Poly.const(ker)))
                 D.classes[lab] = z3_of(ker)
-                if "FSV" in P.INDEX and P.INDEX["FSV"] in ker.v.n.vars():
+                # the kernel carries a non-trivial expanded factor iff it depends on L = log(xif^2) (the probes for gamma and the solution do not)
+                lv = k["Lsv"].v.n.vars() if isinstance(k["Lsv"], SR) else set()
+                if set(lv) & set(ker.v.n.vars()):
                     D.factor = True
             k = w.calls.quad[0].keywords
             # is_threshold itself is not compared: only its effects are (kernel class, coupling arguments, identity shortcut)
@@ -335,11 +338,13 @@ def _cont(Di, Dj, sub, eps):
     if len(Dc.a_calls) != 2:
         return z3.BoolVal(False), "number of coupling evaluations"
     (c0, _n0), (c1, _n1) = Dc.a_calls
-    # a_s arguments collapse with the segment: arg1 / arg0 == q2_to / q2_from, up to the factor xif^2 ~ 1 tolerated above
-    lhs, rhs = s(c1) * s(Dc.q2[0]), s(c0) * s(Dc.q2[1])
-    tol = z3.RealVal(str(Fraction(1, 10**8) + Fraction(1, 10**5)))
-    g.append(z3.And(lhs - rhs <= tol * rhs, rhs - lhs <= tol * rhs))
-    return z3.And(g), "an identity operator neighbours an operator carrying a non-trivial expanded factor (or with couplings that do not collapse)"
+    # the evolution part of the computed neighbour is within the shortcut tolerance of the identity: its two a_s arguments
+    # nearly coincide (np.isclose tolerance of the shortcut plus the displacement eps)
+    c0z, c1z = s(c0), s(c1)
+    tol = z3.RealVal(str(3 * Fraction(1, 10**5)))
+    slack = tol * c1z + z3.RealVal(str(Fraction(1, 10**7))) * (1 + x2)
+    g.append(z3.And(c1z - c0z <= slack, c0z - c1z <= slack))
+    return z3.And(g), "an identity operator neighbours an operator carrying a non-trivial expanded factor (or whose a_s arguments are not close)"
 
 
 def _decide_summary(log, decide, summary, kw, tag):
@@ -519,6 +524,9 @@ def replay_cont(point, nf0, nff, sv, order):
     for ep in oc.evolgrid:
         els = recipes._elements(ep, atlas)
         fin = els[-1]
+        if not hasattr(fin, "as_atlas") or not hasattr(fin, "cliff"):
+            info.append(NS(ep=ep, nf=(fin.hq - 1 if fin.inverse else fin.hq), n=len(els) + 1, cliff=None, mu2=("path ends with the matching",), a_s=(), factor=False))
+            continue
         op = evop.Operator(parts._evolve_configs(NS(theory_card=tc, operator_card=oc)), parts._managers(NS(theory_card=tc, operator_card=oc)),
                            fin.as_atlas, is_threshold=fin.cliff)
         info.append(NS(ep=ep, nf=fin.nf, n=len(els), cliff=fin.cliff, mu2=tuple(float(x) for x in op.mu2), a_s=tuple(float(x) for x in op.a_s),
@@ -527,8 +535,11 @@ def replay_cont(point, nf0, nff, sv, order):
     if a.nf != b.nf:
         return None  # neighbour is in another patch
     # independent expectation: a relative displacement eps of the target moves nothing by more than O(eps)
-    suspicious = (a.n != b.n or a.factor != b.factor or abs(a.mu2[0] - b.mu2[0]) > 1e-9 * abs(a.mu2[0])
-                  or abs(b.mu2[1] - a.mu2[1]) > 10 * abs(eps) * abs(a.mu2[1]))
+    if a.cliff is None or b.cliff is None:
+        suspicious = True
+    else:
+        suspicious = (a.n != b.n or a.factor != b.factor or abs(a.mu2[0] - b.mu2[0]) > 1e-9 * abs(a.mu2[0])
+                      or abs(b.mu2[1] - a.mu2[1]) > 10 * abs(eps) * abs(a.mu2[1]))
     # end to end: two real solves on a tiny grid
     d = tempfile.mkdtemp(prefix="c53_replay_")
     try:
